@@ -1,13 +1,14 @@
-\* S->C, random walks (tlc -simulate file=...,num=N -depth D) over 5 classes, arities 1..3.
+\* S->C, random walks (tlc -simulate file=...,num=N -depth D) over 5 classes.
 \* Reference instance of what checks/c17.py generates per kind (gen_cfg).
 SPECIFICATION Spec
 CONSTANTS
   Kinds <- KMapDyn
-  Arities = {1, 2, 3}
-  NXs = {0, 1, 2}
+  Arities = {1, 2}
+  NXs = {0, 1, 2, 3}
   K = 5
   MaxHist = 999
   MaxCells = 999
   OpClasses <- OpsSimInsEr
   EmitMode <- ModeNone
+  Plans <- NoPlans
 CONSTRAINT Bound
